@@ -21,13 +21,23 @@
   * the regenerated frequency tables span exactly one octave and follow equal temperament
     (PSG within 1 LSB, FM within 2 LSB per semitone; FM within 1 LSB is FALSE of the table, see
     the example below).
+  * `C07_tick_delivery`: the n-th `play_tick` of a fresh player delivers exactly the n-th tick of
+    the list machine over `perf` (first pass of the track);
+  * `C07_key_frame_partial` (+ `C07_update_ticks`, `C07_key_frame_start`): for FM channels of
+    tracks without slurs, each update writes a key-off iff a note/rest/end (or tie) is delivered
+    in its ticks and the key-on, last, iff a note (or tie) is delivered;
+  * `C07_pitch_value_partial`: the pitch words the model computes and writes, `fmPitch = fmWord`.
   What is NOT proved here and rests on the schedule oracle (Spec/Schedule run on every real
-  export by the check) and on the byte-exact correspondence: `tick_delivery`, `keyon_frame`,
-  `keyoff_frame`, `pitch_value`, `export_extent` — kept as `C07_full_statement`.
+  export by the check) and on the byte-exact correspondence: `export_extent`, the loop passes
+  after the first, slurred notes, PSG key-on/attenuation, the register-file replay of
+  `pitch_value`, and the composition of the per-update theorems into one statement over the log
+  — kept as `C07_full_statement`.
   Known finding (known_findings.txt, key `short-note`): at more than one tick per update the
   key-on of a note that ends inside the update it starts in is written after its key-off.
 -/
 import Ctrmml.Proofs.MdDriver
+import Ctrmml.Proofs.TickStream
+import Ctrmml.Proofs.MdKeys
 import Ctrmml.Spec.Schedule
 namespace Ctrmml.C07
 open Ctrmml Ctrmml.MdDriver Tables
@@ -128,6 +138,129 @@ theorem C07_log_on_grid (d : Data) (song : Song) (tags : Vgm.Tags) (ops : List V
       · exact hloop p hp hw
       · simp [stamps] at hp
         rcases hp with rfl | rfl <;> simp [isWrite] at hw
+
+/-- **Tick delivery (first pass of a track).**  Let `items` be the structural expansion `perf`
+of a track of a song without explicit `END` events, platform commands or drum mode, whose
+expansion stays within the step budget of the fetch loop.  Then the `n`-th call of
+`Player::play_tick` (from a fresh player) calls `write_event` with exactly what the list machine
+`TickStream.lmTick` delivers at its `n`-th tick when loaded with `items`: a synthetic `REST`
+when an on-time runs out and off-time is left (i.e. at `start + on` when `off > 0`), and, when
+the current item has elapsed, the next items of `perf` up to and including the first one with
+a duration — each item at the tick equal to its start time (`C07_list_machine_times`).  This
+holds for every `n` up to the end of the first pass (while the list machine is live). -/
+theorem C07_tick_delivery (song : Song) (root : List Event) (pd : Int → Bool)
+    (hs : Refine.SongNoEnd song) (hr : Tree.NoEnd root) (hplain : TickStream.PlainCode song root)
+    (items : List Expand.Item) (hperf : Expand.perf song root = .ok items)
+    (hfuel : ∀ k outs, Refine.stepsCore song root k ⟨.root, 0, []⟩ = .ok (⟨.root, root.length, []⟩, outs) →
+      k ≤ PlayerCh.settleFuel)
+    (n : Nat) (hlive : ∀ j, j < n → (TickStream.lmAfter (j + 1) ⟨0, 0, items⟩).live) :
+    TickStream.tickEvents song root pd n PlayerCh.initPS = TickStream.lmRun n ⟨0, 0, items⟩ := by
+  have hrel := TickStream.rel_init song root hs hr items hperf hfuel
+  obtain ⟨s', hrun, _⟩ := TickStream.ct_sim_run song root _ n _ _ hrel hlive
+  exact TickStream.tickEvents_ct song root pd (TickStream.plainHooks_of song root hplain) n PlayerCh.initPS rfl
+    (by unfold TickStream.drumOff; decide) s' _ hrun
+
+/-- **Which ticks an update plays (constant tempo).**  With the tempo `δ` in force and the
+accumulator at `c < 128` before update 0, update `k` plays the `play_tick` calls number
+`N_k … N_{k+1} − 1`, where `N_k = (c + k(δ+1)) div 128` (`C07_tempo_closed_form`); call number
+`j` delivers the items of `perf` that start at tick `j` (`C07_tick_delivery`).  Hence the item
+starting at tick `τ` is handled in update `min {k | N_{k+1} > τ}`. -/
+theorem C07_update_ticks (k c δ : Nat) (hc : c < 128) :
+    (tempoRun (k + 1) c δ).1 = (tempoRun k c δ).1 + (tempoStep (tempoRun k c δ).2 δ).1 ∧
+    (tempoRun (k + 1) c δ).2 = (tempoStep (tempoRun k c δ).2 δ).2 ∧
+    (tempoRun k c δ).1 ≤ (tempoRun (k + 1) c δ).1 := by
+  rw [tempoRun_closed _ _ _ hc, tempoRun_closed _ _ _ hc]
+  simp only [tempoStep, pow_shift]
+  have e : (k + 1) * (δ + 1) = k * (δ + 1) + δ + 1 := by rw [Nat.succ_mul]; omega
+  rw [e]
+  generalize k * (δ + 1) = m
+  omega
+
+/-- **Key-on and key-off in the right update (FM channel; partial: no slur in the track, any
+tempo as long as the tick count `n` of the update is given).**  Let an FM channel of the
+model be in good standing (no error, slur flag clear, no key-on pending) and related to the
+list machine `m` loaded with the rest of `perf` (`TickStream.Rel`, established at the start of
+the track by `TickStream.rel_init`).  One `MD_Channel::update(n)` — unless it ends in an error —
+leaves the channel related to the list machine `n` ticks later (so the statement applies to the
+next update again), writes only key-off and key-on words of this channel to register 0x28, and
+ * writes a key-off iff a note, rest or end of track (or a tie, which re-keys when an instrument
+   change is pending) is delivered in these `n` ticks;
+ * writes the key-on, as the LAST key write of the update, iff a note (or such a tie) is
+   delivered in these `n` ticks.
+Together with `C07_update_ticks` and `C07_play_step_grid` this places the key writes of the
+note starting at tick τ in the update `min {k | N_{k+1} > τ}` at sample `735·k`.  Extra
+hypotheses w.r.t. the full statement: no `SLUR` event in the track (with slurs the key-on of a
+slurred note is suppressed, which the schedule oracle checks); notes shorter than an update are
+allowed here (the key-on is then last, after the key-off — the `short-note` finding). -/
+theorem C07_key_frame_partial (d : Data) (song : Song) (root : List Event) (bank id : Nat)
+    (hid : id < 3) (hbank : bank < 2)
+    (hplain : TickStream.PlainCode song root)
+    (hnoslur : ∀ tr e, e ∈ codeOf song root tr → e.type ≠ ev_SLUR)
+    (cEnd : Player.Core) (n : Nat) (g : G) (c : Ch) (m : TickStream.LM)
+    (hc : ChOK root bank id c) (hg : g.err = none) (hkon : c.keyOn = false)
+    (hrel : TickStream.Rel song root cEnd ⟨c.ps.core, c.ps.acc⟩ m)
+    (hl : ∀ j, j < n → (TickStream.lmAfter (j + 1) m).live) :
+    (chUpdate d song n g c).1.err.isSome = true ∨
+      (TickStream.Rel song root cEnd ⟨(chUpdate d song n g c).2.1.ps.core, (chUpdate d song n g c).2.1.ps.acc⟩
+          (TickStream.lmAfter n m) ∧
+       ChOK root bank id (chUpdate d song n g c).2.1 ∧ (chUpdate d song n g c).2.1.keyOn = false ∧
+       (∀ x ∈ keys (chUpdate d song n g c).2.2, x = koff bank id ∨ x = kon bank id) ∧
+       ((∃ e ∈ (TickStream.lmRun n m).flatten, e.type = ev_NOTE ∨ e.type = ev_REST ∨ e.type = ev_END) →
+          koff bank id ∈ keys (chUpdate d song n g c).2.2) ∧
+       (koff bank id ∈ keys (chUpdate d song n g c).2.2 →
+          ∃ e ∈ (TickStream.lmRun n m).flatten, e.type = ev_NOTE ∨ e.type = ev_TIE ∨ e.type = ev_REST ∨ e.type = ev_END) ∧
+       ((∃ e ∈ (TickStream.lmRun n m).flatten, e.type = ev_NOTE) →
+          (keys (chUpdate d song n g c).2.2).getLast? = some (kon bank id)) ∧
+       (kon bank id ∈ keys (chUpdate d song n g c).2.2 →
+          ∃ e ∈ (TickStream.lmRun n m).flatten, e.type = ev_NOTE ∨ e.type = ev_TIE)) :=
+  chUpdate_keys d song root bank id hid hbank (TickStream.plainHooks_of song root hplain)
+    (TickStream.hooks_of song root (fun t => t ≠ ev_SLUR) (by decide) hnoslur) cEnd n g c m hc hg hkon hrel hl
+
+/-- the hypotheses of `C07_key_frame_partial` hold at the start of every FM track:
+`MD_FM`'s constructor leaves the channel in good standing with nothing pending -/
+theorem C07_key_frame_start (d : Data) (id : Nat) (root : List Event) (hid : id < 6) :
+    ChOK root (id / 3) (id % 3) (mkCh d id root).1 ∧ (mkCh d id root).1.keyOn = false ∧
+      (mkCh d id root).1.ps.core = ⟨.root, 0, []⟩ ∧ (mkCh d id root).1.ps.acc = {} := by
+  have hd : TickStream.drumOff
+      ({ trackState := ((List.replicate ev_CHANNEL_CMD_COUNT (0 : Int)).set (PlayerCh.chIdx ev_VOL_FINE) md_initial_vol).set
+          (PlayerCh.chIdx ev_PAN) md_initial_pan, mask := [PlayerCh.VOL_BIT] } : PlayerCh.Chan) := by
+    unfold TickStream.drumOff; decide
+  unfold mkCh
+  rw [if_pos hid]
+  exact ⟨⟨rfl, rfl, rfl, hd, rfl⟩, rfl, rfl, rfl⟩
+
+/-- **Pitch value (partial: the values the model computes and writes; the register-file
+replay is left to the oracle).**  (1) A note sets `note_pitch` to
+`256·(note + transpose) + detune` (mod 2^16); (2) at the end of the update the channel pitch
+becomes `note_pitch + 256·instrument transpose` (mod 2^16), it is written — as the word
+`fmPitch pitch` to the channel's block/f-number registers 0xa4+id / 0xa0+id — exactly when it
+differs from the last written pitch, which it then replaces; (3) on the whole valid range
+(8 octaves) `fmPitch` is the table value with linear detune interpolation that
+`Spec/Schedule.fmWord` defines (the PSG counterpart `psgPitch = psgWord` is checked by the oracle only). -/
+theorem C07_pitch_value_partial :
+    (∀ (g : G) (c : Ch) (e : Event),
+      (noteStart g c e).2.1.notePitch = u16 ((e.param + c.var ev_TRANSPOSE) * 256 + c.var ev_DETUNE)) ∧
+    (∀ (c : Ch) (bank id : Nat), c.kind = .fm bank id →
+      (chPitch c).1.pitch = u16 ((c.notePitch : Int) + c.insTranspose * 256) ∧
+      (chPitch c).1.lastPitch = (chPitch c).1.pitch ∧
+      (chPitch c).2 = (if (chPitch c).1.pitch ≠ c.lastPitch then ymW bank 0xa0 id 0 (fmPitch (chPitch c).1.pitch) else [])) ∧
+    (∀ p : Nat, p < 96 * 256 → Schedule.fmWord p = some (fmPitch p)) := by
+  refine ⟨?_, ?_, ?_⟩
+  · intro g c e
+    unfold noteStart
+    simp only
+    split
+    · cases c.kind <;> rfl
+    · rfl
+  · intro c bank id hk
+    refine ⟨rfl, rfl, ?_⟩
+    unfold chPitch
+    simp only [vSetPitch, hk]
+  · have H : ∀ n, n < 96 → ∀ f, f < 256 → Schedule.fmWord ((256 * n + f : Nat) : Int) = some (fmPitch (256 * n + f)) := by
+      decide +kernel
+    intro p hp
+    have := H (p / 256) (by omega) (p % 256) (by omega)
+    rwa [Nat.div_add_mod] at this
 
 /-- **Tempo accumulator, closed form.**  `n` sequence updates at constant tempo `δ` from
 counter `c` play `(c + n(δ+1)) div 128` ticks and leave the counter `(c + n(δ+1)) mod 128`. -/
@@ -269,8 +402,10 @@ def InsAgree (d : Data) (t : Schedule.InsTab) : Prop :=
 /-- Every valid plain-subset song exports, the exported file parses, and the schedule oracle
 (key-on / key-off updates, pitch and attenuation at each key-on, extent and loop marker) finds
 no deviation.  `NoShortNote` excludes the known finding `short-note` (a note ending inside
-the update it starts in); the missing proof steps are `tick_delivery` (Player ↔ `perf`, from the C04
-refinement), the per-channel write lemmas and the loop-count lemma of `export_extent`. -/
+the update it starts in); proved pieces: `C07_tick_delivery`, `C07_key_frame_partial`,
+`C07_update_ticks`, `C07_pitch_value_partial`, `C07_log_on_grid`; missing: the composition over
+all updates and channels, slurs, PSG, the loop passes after the first and the loop-count lemma of
+`export_extent`. -/
 def C07_full_statement : Prop :=
   ∀ (d : Data) (song : Song) (tags : Vgm.Tags) (t : Schedule.InsTab),
     InsAgree d t → NoShortNote song →
